@@ -1604,12 +1604,11 @@ fn open_via_ffi(path: &Path) -> (u8, i32) {
     let mut err = clockbound::clockbound_err::default();
     let ctx = verif_rt::nokill(|| unsafe { clockbound::clockbound_open(c.as_ptr(), &mut err) });
     if ctx.is_null() {
-        let k = match err.kind {
-            clockbound::clockbound_err_kind::CLOCKBOUND_ERR_NONE => 0,
-            clockbound::clockbound_err_kind::CLOCKBOUND_ERR_SYSCALL => 1,
-            clockbound::clockbound_err_kind::CLOCKBOUND_ERR_SEGMENT_NOT_INITIALIZED => 2,
-            clockbound::clockbound_err_kind::CLOCKBOUND_ERR_SEGMENT_MALFORMED => 3,
-            clockbound::clockbound_err_kind::CLOCKBOUND_ERR_CAUSALITY_BREACH => 4,
+        // the number a C caller sees, read against the numbering clockbound.h documents (0..4); a
+        // value outside it is an undocumented kind
+        let k = match err.kind as i32 {
+            n @ 0..=4 => n as u8,
+            _ => 9,
         };
         // a NULL context with kind NONE would be an undocumented failure
         (if k == 0 { 9 } else { k }, err.errno)
